@@ -851,7 +851,10 @@ func runC20(tier string, part, parts int) procxResult {
 	if part == 0 {
 		runC20History(&res)
 	}
-	killTimeout := 300 * time.Millisecond
+	// The kill timeout is long compared with the allowance below: a runner that reports the job finished while an
+	// interrupt-ignoring process still waits for the escalation is caught with the process alive.
+	killTimeout := 2500 * time.Millisecond
+	const latency = time.Second // "scheduling latency": a process that has been sent SIGKILL may take a moment to disappear
 	shapes := c20Shapes(tier)
 	modes := []string{"cancel-when-all-leaves-run", "cancel-at-once", "forced-shutdown"}
 	caseNo := 0
@@ -910,8 +913,8 @@ func runC20(tier string, part, parts int) procxResult {
 				res.add("job-never-reported-finished:"+shapeClass(sh.name), fmt.Sprintf("%s: the job is not reported finished 30s after the cancel: %+v; processes: %v", desc, v.Tasks, procsWithMarker(marker)))
 			} else {
 				reported := time.Since(t0)
-				// from the moment the job is reported finished no process may be alive beyond the kill timeout + latency allowance
-				deadline := time.Now().Add(killTimeout + 10*time.Second)
+				// from the moment the job is reported finished no process of it may be alive (beyond the latency allowance)
+				deadline := time.Now().Add(latency)
 				var alive []string
 				for {
 					alive = procsWithMarker(marker)
@@ -920,8 +923,14 @@ func runC20(tier string, part, parts int) procxResult {
 					}
 					time.Sleep(20 * time.Millisecond)
 				}
+				if len(alive) > 0 && os.Getenv("VERIF_C20_DEBUG") != "" {
+					fmt.Fprintf(os.Stderr, "C20DEBUG %s | %s | reported=%v alive=%d\n", sh.name, mode, reported.Round(time.Millisecond), len(alive))
+				}
 				if len(alive) > 0 {
-					res.add("process-survives-cancel:"+shapeClass(sh.name)+":"+mode, fmt.Sprintf("%s: the job was reported finished %v after the cancel, but %d of its processes are still alive %v later: %v", desc, reported.Round(time.Millisecond), len(alive), (killTimeout+10*time.Second), alive))
+					res.add("process-survives-cancel:"+shapeClass(sh.name)+":"+mode, fmt.Sprintf("%s: the job was reported finished %v after the cancel (kill timeout %v), but %d of its processes are still alive %v later: %v", desc, reported.Round(time.Millisecond), killTimeout, len(alive), latency, alive))
+				}
+				if reported > killTimeout+10*time.Second {
+					res.add("cancel-takes-longer-than-kill-timeout:"+shapeClass(sh.name)+":"+mode, fmt.Sprintf("%s: the job was reported finished only %v after the cancel (kill timeout %v)", desc, reported.Round(time.Millisecond), killTimeout))
 				}
 			}
 			if by != nil {
